@@ -209,7 +209,8 @@ pub fn rdata_fields(r: &mut Rng, rtype: u16, pool: &[Labels], sz: &Sizes) -> Vec
                 } else {
                     w = r.below(3) as u8;
                 }
-                let bl = 1 + r.usize_below(32.min(sz.blob_max.max(1)));
+                // zero-length bitmaps are accepted by the parser and constructible by callers
+                let bl = if r.chance(1, 6) { 0 } else { 1 + r.usize_below(32.min(sz.blob_max.max(1))) };
                 let bm = r.bytes(bl);
                 v.push(F::U8(w));
                 v.push(F::U8(bm.len() as u8));
@@ -318,4 +319,49 @@ pub fn packet(r: &mut Rng, cfg: &PacketCfg) -> (MsgSpec, Option<OptSpec>) {
         None
     };
     (m, opt)
+}
+
+/// A message built so that a multi-label name straddles offset 16383 (the largest offset a
+/// compression pointer can express) and its suffixes are reused afterwards: one opaque filler
+/// record pads the message so that the next owner name starts `d` bytes before 16384.
+pub fn boundary_packet(r: &mut Rng) -> (MsgSpec, Option<OptSpec>) {
+    let style = if r.chance(1, 4) { LabelStyle::Binary } else { LabelStyle::Plain };
+    let nl = 2 + r.usize_below(3);
+    let base: Labels = (0..nl).map(|_| label(r, style, 8)).collect();
+    let wire = refdns::name_wire_len(&base);
+    let d = r.usize_below(wire + 3);
+    let mut m = MsgSpec { id: r.next_u64() as u16, flags: if r.chance(1, 2) { 0x8400 } else { 0 }, ..Default::default() };
+    let nq = r.usize_below(2);
+    let mut pool: Vec<Labels> = vec![base.clone()];
+    for i in 1..base.len() {
+        pool.push(base[i..].to_vec());
+    }
+    let mut extra = base.clone();
+    extra.insert(0, label(r, style, 5));
+    pool.push(extra);
+    for _ in 0..nq {
+        // an unrelated question name so that nothing of `base` is registered early
+        m.questions.push(Q { name: vec![label(r, style, 6)], qtype: t::A, qclass: 1, unicast: false });
+    }
+    let used: usize = 12 + m.questions.iter().map(|q| refdns::name_wire_len(&q.name) + 4).sum::<usize>();
+    // filler: root owner (1) + 10 + blob
+    let target_start = 16384usize.saturating_sub(d);
+    let blob = target_start.saturating_sub(used + 11);
+    m.answers.push(Rec { owner: vec![], rtype: t::NULL, class: 1, cache_flush: false, ttl: 0, fields: vec![F::Bytes(r.bytes(blob.max(1)))] });
+    let sz = Sizes { blob_max: 8, txt_strings_max: 2, txt_string_max: 8 };
+    let n = 3 + r.usize_below(6);
+    for i in 0..n {
+        let owner = if i == 0 { base.clone() } else { pool[r.usize_below(pool.len())].clone() };
+        let ty = *r.pick(&[t::A, t::PTR, t::NS, t::MX, t::CNAME, t::SRV, t::SOA, t::TXT, t::KX, t::RP, t::NSEC, t::MINFO]);
+        let mut rec = record(r, owner, ty, &pool, &sz);
+        if rec.fields.is_empty() {
+            rec.fields = rdata_fields(r, ty, &pool, &sz);
+        }
+        match r.below(3) {
+            0 => m.answers.push(rec),
+            1 => m.authority.push(rec),
+            _ => m.additional.push(rec),
+        }
+    }
+    (m, None)
 }
